@@ -944,7 +944,7 @@ func (c *Certificate) CheckSignatureFrom(parent *Certificate) error {
 	// (except for Entrust, see comment above entrustBrokenSPKI)
 	if (parent.Version == 3 && !parent.BasicConstraintsValid ||
 		parent.BasicConstraintsValid && !parent.IsCA) &&
-		!bytes.Equal(c.RawSubjectPublicKeyInfo, entrustBrokenSPKI) {
+		!bytes.Equal(parent.RawSubjectPublicKeyInfo, entrustBrokenSPKI) {
 		return ConstraintViolationError{}
 	}
 
